@@ -32,6 +32,7 @@ type magScenario struct {
 	J        int    `json:"j"`
 	Push     string `json:"push"`
 	Regime   int    `json:"regime"`
+	Frac     int    `json:"frac"`
 	Steps    int    `json:"steps"`
 	D        []int  `json:"D"`
 	W        []int  `json:"W"`
@@ -53,7 +54,7 @@ func (m magScenario) key() string {
 }
 
 func (m magScenario) desc(i int) chainDesc {
-	return chainDesc{Kind: "mag", Steps: m.Steps, Regime: m.Regime,
+	return chainDesc{Kind: "mag", Steps: m.Steps, Regime: m.Regime, Frac: m.Frac,
 		Net: netDesc{Oak: m.Net.Oak, Fix: m.Net.Fix, Asic: m.Net.Asic, Allow: m.Net.Allow, Final: m.Net.Final,
 			Interval: m.Interval, Factor: skelFactors[i%len(skelFactors)], OakTime: m.OakTime},
 		Mag: &magInit{Start: uint64(m.H), D: vlib.FromLimbs(m.D).String(), W: vlib.FromLimbs(m.W).String(), OakW: vlib.FromLimbs(m.OakW).String(),
@@ -85,7 +86,7 @@ func (m *magInit) state(base consensus.State, d netDesc) consensus.State {
 	s.Index = types.ChainIndex{Height: m.Start, ID: types.BlockID(types.HashBytes([]byte(m.Label)))}
 	s.PrevTimestamps = [11]time.Time{}
 	for i := 0; i < 11 && uint64(i) <= m.Start; i++ {
-		s.PrevTimestamps[i] = genesisTime.Add(time.Duration((int(m.Start)-i)*d.Interval) * time.Second)
+		s.PrevTimestamps[i] = at(whole(int64((int(m.Start) - i) * d.Interval)))
 	}
 	s.OakTime = time.Duration(d.OakTime) * time.Second
 	D, W, O := dec(m.D), dec(m.W), dec(m.OakW)
@@ -112,7 +113,7 @@ func parseMag(c *vlib.Ctx, lines []string) []magScenario {
 			continue
 		}
 		var m magScenario
-		if err := json.Unmarshal([]byte(vlib.UnquoteTLA(ln[4:])), &m); err != nil || len(m.D) == 0 || len(m.W) == 0 || len(m.OakW) == 0 || m.Steps == 0 {
+		if err := json.Unmarshal([]byte(vlib.UnquoteTLA(ln[4:])), &m); err != nil || m.Frac < 0 || m.Frac > 3 || len(m.D) == 0 || len(m.W) == 0 || len(m.OakW) == 0 || m.Steps == 0 {
 			c.Fatal("cannot parse magnitude scenario %q: %v", vlib.Tail(ln, 200), err)
 		}
 		out = append(out, m)
